@@ -1,6 +1,7 @@
 package lossless
 
 import (
+	"sync"
 	"github.com/deepteams/webp/internal/verifapi"
 	ref "github.com/deepteams/webp/internal/verifref/vp8l"
 )
@@ -169,6 +170,37 @@ func vSameDecode(data []byte, what string) {
 //	shape 3: 4x3, one group, green = normal code {two literals, length prefix p}, distance symbol q,
 //	         24 symbolic stream bits.
 func VerifH_C03_Entropy(shape, p, q int) {
+	vSameDecode(vStructuredStream(shape, p, q, true), "structured stream")
+}
+
+// VerifH_C17_VP8LPrefix: truncation inside the VP8L bitstream is all-or-nothing: for the structured
+// streams of VerifH_C03_Entropy (symbolic data bits, no slack bytes after the last needed bit beyond the
+// byte boundary) DecodeVP8L of the first k bytes either fails or returns exactly the picture decoded
+// from the complete stream. k = cut position counted from the END of the stream (1 = last byte removed).
+func VerifH_C17_VP8LPrefix(shape, p, q, k int) {
+	data := vStructuredStream(shape, p, q, false)
+	if k > len(data) {
+		k = len(data)
+	}
+	// the truncated stream is decoded FIRST, by a fresh decoder: a pooled decoder that has just decoded
+	// the complete stream still holds that picture in its pixel buffer, which would mask a partial decode
+	losslessDecoderPool = sync.Pool{}
+	cut := data[: len(data)-k : len(data)-k]
+	img, cerr := DecodeVP8L(cut)
+	losslessDecoderPool = sync.Pool{}
+	full, err := DecodeVP8L(data)
+	verifapi.Assert(err == nil, "the complete stream decodes")
+	if cerr != nil {
+		verifapi.Cover(true, "truncated stream rejected")
+		return
+	}
+	verifapi.Assert(img.Rect == full.Rect, "a prefix never decodes to a differently sized picture")
+	for i := range full.Pix {
+		verifapi.Assert(img.Pix[i] == full.Pix[i], "a prefix never decodes to a silently altered picture")
+	}
+}
+
+func vStructuredStream(shape, p, q int, slack bool) []byte {
 	w := &vBitW{}
 	// symbol values of the codes are fixed per shape (symbolic symbols would make the prefix-table
 	// construction itself symbolic): derived from the shape arguments
@@ -224,8 +256,10 @@ func VerifH_C03_Entropy(shape, p, q int) {
 		w.put(3, lenExtra)
 		w.put(7, distExtra)
 		// slack so that a decoder that reads on does not hit the end of the stream first
-		w.put(uint32(verifapi.U32("tail")), 32)
-		w.put(uint32(verifapi.U32("tail")), 32)
+		if slack {
+			w.put(uint32(verifapi.U32("tail")), 32)
+			w.put(uint32(verifapi.U32("tail")), 32)
+		}
 	case 2:
 		// 4x4, one group, colour cache of 2^q entries; green code = {literal g (code 0), cache index p (code 1)};
 		// every pixel is one symbolic bit: literal or cache lookup. R/B/A single-symbol codes.
@@ -249,7 +283,9 @@ func VerifH_C03_Entropy(shape, p, q int) {
 		w.simple1(a)
 		w.simple1(0)
 		w.put(uint32(verifapi.U16("choice_bits")), W*H)
-		w.put(uint32(verifapi.U32("tail")), 32)
+		if slack {
+			w.put(uint32(verifapi.U32("tail")), 32)
+		}
 	case 3:
 		// 4x3, one group, green code = {literal g0 (00), literal g1 (01), length prefix p (1x)} with lengths
 		// 2,2,1; distance code single symbol q (plane code); pixels: symbolic bits.
@@ -270,7 +306,9 @@ func VerifH_C03_Entropy(shape, p, q int) {
 		w.simple1(sym("a"))
 		w.simple1(uint32(q))
 		w.put(uint32(verifapi.U32("pixel_bits")), 24)
-		w.put(uint32(verifapi.U32("tail")), 32)
+		if slack {
+			w.put(uint32(verifapi.U32("tail")), 32)
+		}
 	case 1:
 		const W, H = 4, 4
 		w.put(0x2f, 8)
@@ -286,7 +324,9 @@ func VerifH_C03_Entropy(shape, p, q int) {
 		w.simple1(sym("b"))
 		w.simple1(sym("a"))
 		w.simple1(0)
-		w.put(uint32(verifapi.U32("tail")), 32)
+		if slack {
+			w.put(uint32(verifapi.U32("tail")), 32)
+		}
 	}
-	vSameDecode(w.buf, "structured stream")
+	return w.buf
 }
